@@ -364,6 +364,21 @@ func GenSession(prop string, seed uint64, thorough bool) *Scenario {
 		}
 		sc.Clients = append(sc.Clients, c)
 	}
+	// C17: preflight requests against the configured CORS policy
+	if prop == "C17" && o.Cors != nil {
+		pf := ClientSpec{Name: "pf", Transport: "polling", EIO: 4, StartMs: g.pick(0, 100, 400)}
+		for i, n := 0, g.rng(1, 3); i < n; i++ {
+			h := map[string]string{"Origin": g.picks("http://a.test", "http://b.test", "http://c.test"), "Access-Control-Request-Method": g.picks("POST", "GET", "PUT")}
+			if g.p(0.5) {
+				h["Access-Control-Request-Headers"] = g.picks("X-A", "x-a, x-z", "Content-Type")
+			}
+			pf.Raw = append(pf.Raw, RawOp{Op: "http", Method: "OPTIONS", Query: "EIO=4&transport=polling", Hdr: h, AtMs: g.pick(0, 10)})
+		}
+		if sc.Attach != nil && sc.Attach.Path != nil {
+			pf.Path = ""
+		}
+		sc.Clients = append(sc.Clients, pf)
+	}
 	// application
 	nsend := g.rng(1, p.senders)
 	for s := 0; s < nsend; s++ {
@@ -373,6 +388,9 @@ func GenSession(prop string, seed uint64, thorough bool) *Scenario {
 		at := g.rng(0, sc.HorizonMs/2)
 		for k := 0; k < n; k++ {
 			cl := sc.Clients[g.IntN(len(sc.Clients))]
+			if len(cl.Raw) > 0 {
+				cl = sc.Clients[0]
+			}
 			if !burst {
 				at = g.rng(0, sc.HorizonMs*4/5)
 			} else if g.p(0.3) {
